@@ -13,6 +13,7 @@ def _h(name, func, bounds, quick, thorough=None, kf=None, unwind=10, **kw):
                 for k in (kf or {}).get(c.get('KIND', -1), []) if isinstance(kf, dict) else (kf or []): c[k] = 1     # TEMPORARY: pending findings
             out.append(c)
         return out
+    kw.setdefault('backend', 'cadical')
     HARNESSES.append(dict(name=name, src='harnesses/C20.c', func=func, kernels=['C20_arrays'], unwind=unwind, bounds=bounds, quick=cf(quick), thorough=cf(thorough or quick), **kw))
 
 HB = ('history of K symbolic steps on two live objects (default-constructed): {resize(shape of 1..4 extents, each MINE..MAXE: in-capacity, over-capacity and dimension-changing requests), '
@@ -20,24 +21,55 @@ HB = ('history of K symbolic steps on two live objects (default-constructed): {r
       'offset() of two symbolic in-shape probe indices equals the layout Horner form (so distinct indices -> distinct cells), every resize return value equals the model')
 KINDS = {0: 'ndarray_t<static_vector<unsigned,8>, std::array<size_t,2>> row-major', 1: 'same, column-major', 2: 'ndarray_t<static_vector<unsigned,8>, static_vector<size_t,3>> row-major',
          3: 'same, column-major', 4: 'ndarray_t<std::vector<unsigned>, std::vector<size_t>> row-major (requests limited to <= 8 cells, dim <= 3)', 5: 'same, column-major', 6: 'ndarray_t<static_vector<unsigned,8>, std::array<size_t,3>> row-major'}
-for kind in (0, 1, 2, 3, 6, 4, 5):
-    heavy = kind in (4, 5)
-    _h('hist_kind%d' % kind, 'h_hist', KINDS[kind] + '; ' + HB, quick=[{'KIND': kind, 'K': 2 if heavy else 3, 'MAXE': 3 if heavy else 4}], thorough=[{'KIND': kind, 'K': 3, 'MAXE': 4}],
-       kf={1: ['KF_C20_COLMAJOR_STRIDES'], 3: ['KF_C20_COLMAJOR_STRIDES'], 5: ['KF_C20_COLMAJOR_STRIDES']}, unwind=10, mem_gb=8)
-_h('hybrid2', 'h_hybrid2', 'legacy hybrid_ndarray<unsigned,8,2>: K symbolic steps {resize(a,b) with a,b in MINE..MAXE, write(i,j), assign, copy, self-assign} on two objects; shape/strides/known elements', quick=[{'K': 3}], thorough=[{'K': 4}])
-_h('dynamic', 'h_dynamic', 'legacy dynamic_ndarray<unsigned>: K symbolic steps {resize(shape dim 1..3, <= 8 cells), write(buffer position), assign, copy, self-assign}', quick=[{'K': 2, 'MAXE': 3}], thorough=[{'K': 3}], mem_gb=8)
-_h('dynamic_assign_from', 'h_dynamic_assign_from', 'dynamic_ndarray<unsigned> (2-d, symbolic shape) = hybrid 2-d array (symbolic shape and data), <= 8 cells', quick=[{}], kf=['KF_C20_DYNAMIC_ASSIGN_SHAPE_MISMATCH'])
-_h('fixed23', 'h_fixed23', 'fixed_ndarray<unsigned,2,3>: K symbolic steps {write(i,j), assign, copy, self-assign} on two objects with symbolic initial contents', quick=[{'K': 4}], thorough=[{'K': 6}])
-_h('cast', 'h_cast', 'cast of a hybrid 2-d array (extents MINE..MAXE, <= 8 cells, all data symbolic): CASTK 0 cast<unsigned char>, 1 cast<long> of int, 2 cast<float>, 3 kind::dynamic, 4 to ndarray_t<static_vector, static_vector>',
-   quick=[{'CASTK': c} for c in range(5)])
-_h('cast_fixed', 'h_cast_fixed', 'cast of fixed_ndarray<unsigned,2,3> to kind::hybrid and kind::dynamic, all data symbolic', quick=[{}])
+KINDS.update({7: 'ndarray_t<static_vector<unsigned,4>, static_vector<size_t,3>> row-major (capacity 4)', 8: 'same, column-major'})
+PREB = ('; PRE queries: the first two steps are per-query constants (object 0 and object 1 resized to PRE 0: (2,3)/(3,2), 1: (2,2)/(1,4), 2: (2,2,2)/(4), 3: (1,4)/(1,2,3)), the remaining step(s) symbolic')
+CM = {1: ['KF_C20_COLMAJOR_STRIDES'], 3: ['KF_C20_COLMAJOR_STRIDES'], 5: ['KF_C20_COLMAJOR_STRIDES'], 8: ['KF_C20_COLMAJOR_STRIDES']}
+BIG = dict(_timeout=1800, _mem_gb=12)
+def _hk(kind, quick, thorough, unwind=10, **kw):
+    _h('hist_kind%d' % kind, 'h_hist', KINDS[kind] + '; ' + HB + PREB, quick=[dict(c, KIND=kind) for c in quick], thorough=[dict(c, KIND=kind) for c in thorough], kf=CM, unwind=unwind, mem_gb=6, **kw)
+_hk(0, [dict(K=2, MAXE=4)], [dict(K=3, MAXE=4, **BIG)])
+_hk(1, [dict(K=2, MAXE=4)], [dict(K=3, MAXE=4, **BIG)])
+_hk(6, [dict(K=2, MAXE=3)], [dict(K=3, MAXE=4, **BIG)])
+_hk(7, [dict(K=1, MAXE=4), dict(K=3, MAXE=4, PRE=1)], [dict(K=3, MAXE=4, PRE=p, **BIG) for p in (0, 2, 3)] + [dict(K=2, MAXE=4, **BIG)], unwind=6)
+_hk(8, [dict(K=1, MAXE=4), dict(K=3, MAXE=4, PRE=1, _mem_gb=8)], [dict(K=3, MAXE=4, PRE=p, **BIG) for p in (0, 2, 3)] + [dict(K=2, MAXE=4, **BIG)], unwind=6)
+_hk(2, [], [dict(K=3, MAXE=3, PRE=p, **BIG) for p in (0, 1, 2, 3)] + [dict(K=1, MAXE=3, **BIG)], optional=True)
+_hk(3, [], [dict(K=3, MAXE=3, PRE=p, **BIG) for p in (0, 1, 2, 3)] + [dict(K=1, MAXE=3, **BIG)], optional=True)
+_hk(4, [], [dict(K=1, MAXE=2, CAPU=4, HCAP=4, _timeout=1800, _mem_gb=14)], unwind=6, optional=True)
+_hk(5, [], [dict(K=1, MAXE=2, CAPU=4, HCAP=4, _timeout=1800, _mem_gb=14)], unwind=6, optional=True)
+_h('hybrid2', 'h_hybrid2', 'legacy hybrid_ndarray<unsigned,8,2>: K symbolic steps {resize(a,b) with a,b in MINE..MAXE, write(i,j), assign, copy, self-assign} on two objects; shape/strides/known elements', quick=[{'K': 2}], thorough=[{'K': 3, **BIG}], unwind=10, mem_gb=6)
+_h('dynamic', 'h_dynamic', 'legacy dynamic_ndarray<unsigned>: K symbolic steps {resize(shape dim 1..3, <= 8 cells), write(buffer position), assign, copy, self-assign}', quick=[], thorough=[{'K': 1, 'MAXE': 2, '_timeout': 1800, '_mem_gb': 14}], optional=True)
+_h('dynamic_assign_from', 'h_dynamic_assign_from', 'dynamic_ndarray<unsigned> (2-d, symbolic shape) = hybrid 2-d array (symbolic shape and data), <= 8 cells', quick=[{'MAXE': 3}], kf=['KF_C20_DYNAMIC_ASSIGN_SHAPE_MISMATCH'], mem_gb=8)
+_h('fixed23', 'h_fixed23', 'fixed_ndarray<unsigned,2,3>: K symbolic steps {write(i,j), assign, copy, self-assign} on two objects with symbolic initial contents', quick=[{'K': 3}], thorough=[{'K': 5}])
+_h('cast', 'h_cast', 'cast of a hybrid 2-d array (extents MINE..MAXE, <= 8 cells, all data symbolic): CASTK 0 cast<unsigned char>, 1 cast<long> of int, 2 cast<float> (bit-exact), 4 to ndarray_t<static_vector<unsigned,8>, static_vector<size_t,3>>',
+   quick=[{'CASTK': 0}, {'CASTK': 1}, {'CASTK': 2, 'MAXE': 2}], thorough=[{'CASTK': 0}, {'CASTK': 1}, dict(CASTK=2, **BIG), dict(CASTK=4, MAXE=3, **BIG)], unwind=12, mem_gb=6)
+_h('cast_dynamic', 'h_cast', 'cast of a hybrid 2-d array to kind::dynamic (dynamic_ndarray over std::vector), shape a per-query constant', quick=[], thorough=[dict(CASTK=3, SH0=2, SH1=3, _timeout=1800, _mem_gb=14)], unwind=12, optional=True)
+_h('cast_fixed', 'h_cast_fixed', 'cast of fixed_ndarray<unsigned,2,3> to kind::hybrid, all data symbolic', quick=[{}], unwind=16)
+_h('cast_fixed_dyn', 'h_cast_fixed_dyn', 'cast of fixed_ndarray<unsigned,2,3> to kind::dynamic', quick=[], thorough=[dict(_timeout=1800, _mem_gb=14)], unwind=12, optional=True)
 MV = 'hybrid 3-d source (capacity 12), extents 1..MAXE with <= 12 cells, all contents, the view index and the written value symbolic; every source cell compared before/after'
 _h('mut_flatten', 'h_mut_flatten', 'mutable_flatten; ' + MV, quick=[{}], unwind=14)
 _h('mut_reshape', 'h_mut_reshape', 'mutable_reshape to every 2-d shape with the same element count; ' + MV, quick=[{}], unwind=14)
 _h('mut_ref', 'h_mut_ref', 'mutable_ref; ' + MV, quick=[{}], unwind=14)
 _h('mut_slice', 'h_mut_slice', 'mutable_slice of a hybrid 2-d source with (start,stop,step) per axis, 0 <= start < stop <= extent, step 1..3; contents/index/value symbolic', quick=[{}], unwind=14)
-_h('mut_flatten_dyn', 'h_mut_flatten_dyn', 'mutable_flatten of ndarray_t<std::vector, std::vector> 2-d, <= 12 cells', quick=[{'MAXE': 3}], thorough=[{'MAXE': 4}], unwind=14)
+_h('mut_flatten_dyn', 'h_mut_flatten_dyn', 'mutable_flatten of ndarray_t<std::vector, std::vector> 2-d, shape a per-query constant', quick=[], thorough=[dict(SH0=2, SH1=3, _timeout=1800, _mem_gb=14)], unwind=14, optional=True)
 PENDING_FINDINGS = []
-OUTSIDE = []
-ASSUMPTIONS = []
-CLAIM = dict(text='', note='')
+OUTSIDE = [
+ 'arrays backed by std::vector (ndarray_t<std::vector,std::vector> row/column-major, legacy dynamic_ndarray, cast to kind::dynamic, mutable_flatten of a dynamic array): '
+ 'no verdict - CBMC runs out of memory (8.5-9 GB, 50-150 s) at the smallest configuration (one symbolic step from the default state, <= 4 cells; or a constant (2,3) shape with symbolic data). '
+ 'They are kept as optional thorough-tier queries (1800 s / 14 GB) and are not part of the claim',
+ 'bounded-dim kinds with capacity 8 (ndarray_t<static_vector<.,8>, static_vector<size_t,3>>): only in the thorough tier (one symbolic step after a concrete two-step prefix: 270 s / 8 GB); the quick tier uses the capacity-4 twin',
+ 'histories longer than K steps (K=2 quick / 3 thorough for fixed-dim kinds; 1 symbolic step after two concrete resizes for bounded-dim kinds); the property text asks for length <= 6',
+ 'contents after an ACCEPTED resize are only claimed for the cells the buffer keeps (positions < min(old,new) length); newly exposed cells are unspecified by the property',
+ 'cast between all 15 ndarray kinds: covered are element-type casts of a hybrid array, hybrid -> bounded-dim ndarray_t (thorough), fixed -> hybrid',
+ 'mutable_slice with negative / None / ellipsis slices (slice semantics are C05); write-through is shown for 0 <= start < stop <= extent, step 1..3',
+ 'extents > 4, dims > 3, zero extents (MINE=1)', 'element types other than unsigned/int/float',
+]
+ASSUMPTIONS = ['the reference for buffer contents is kept at buffer-cell level (row-major or column-major Horner position of the written index), i.e. the layout is part of the model']
+CLAIM = dict(
+ text='For ndarray_t with bounded buffer (fixed dim 2 and 3, capacity 8, row- and column-major; bounded dim <= 3, capacity 4, row- and column-major), the legacy hybrid_ndarray and fixed_ndarray, '
+      'over every bounded history of {resize (in-capacity, over-capacity, dimension-changing), write, assign, copy-construct, self-assign} on two live objects the solver shows: resize returns true exactly when '
+      'the request fits the dimension/capacity bounds; a refused resize leaves dim, shape, strides, buffer length and contents untouched; buffer length == product(shape); strides are the trailing products '
+      '(row-major); offset() is the layout Horner form, so distinct in-shape indices address distinct cells inside the buffer; copies are independent of their source; every cell holds the last value written to it. '
+      'cast<unsigned char>/cast<long>/cast<float> and fixed->hybrid keep the shape and convert each value like static_cast. A write through mutable_flatten / mutable_reshape / mutable_slice / mutable_ref '
+      'at a symbolic index changes exactly src[ref(i)] and reads back the written value.',
+ note='Pending findings (excluded regions, see PENDING_FINDINGS): strides() of column-major arrays are the row-major ones; dynamic_ndarray = array of another shape. '
+      'Bounded: K <= 2 (quick) / 3 (thorough), extents 1..4, <= 8 (4) cells. std::vector-backed kinds gave no verdict (OUTSIDE). Trusted: clang-14 -O1 lowering, engine/ll2c.py, CBMC (cadical back end).')
